@@ -240,7 +240,7 @@ def run(ctx, rep):
     K.share(ctx, rep, "c11", lambda o: o.rule == "R11.5", "R01.5", floor=1)
     K.share(ctx, rep, "c13", lambda o: o.rule == "R13.3", "R01.5", floor=2)
     K.share(ctx, rep, "c10", lambda o: o.rule in ("R10.1", "R10.2", "R10.3", "R10.4"), "R01.6", floor=10)
-    K.share(ctx, rep, "c09", lambda o: o.rule in ("R09.6", "R09.2", "R09.7"), "R01.7", floor=8)
+    K.share(ctx, rep, "c09", lambda o: o.rule in ("R09.6", "R09.2", "R09.7", "R09.5", "R09.4"), "R01.7", floor=12)
     K.share(ctx, rep, "c08", lambda o: o.rule in ("R08.1", "R08.3") and "carries the handler's result" not in o.key
             and "no-exception continuation" not in o.key, "R01.8", floor=6)
     K.share(ctx, rep, "c03", lambda o: o.rule in ("R03.1", "R03.2", "R03.3", "R03.4"), "R01.9", floor=8)
